@@ -247,7 +247,7 @@ func c04Run(c *Ctx) {
 		}
 	}
 	// text outside the zones survives the real line reader at every line length
-	streamLenSweep(c, "C04", []string{"keep-blanks", "keep-mixed"}, Flags{})
+	streamLenSweep(c, "C04", []string{"keep-blanks", "keep-mixed", "keep-multibyte"}, Flags{})
 	sweep(c, layers, func(sc *sweepCase) bool {
 		if sc.C.Root.HasDup() {
 			return false
